@@ -41,6 +41,10 @@ WIDE = 2 ** 21
 BIG = sorted({s * (2 ** k + d) for k in (3, 6, 7, 8, 10, 14, 15, 16, 17, 20) for d in (-1, 0, 1) for s in (1, -1)}
              | {11, 12, 127, -128, 181, 182, 32767, -32768, 46340, 46341, -46341, 65535, 65536, 1000003, -1000003})
 INT_DTYPES = [np.int8, np.int16, np.int32, np.int64]
+# explicit UNSIGNED sample arrays (values in the upper half of the type included: 128..255 for uint8, …) — evaluated exactly like
+# the signed / dict form of the same sample
+UINT_DTYPES = [np.uint8, np.uint16, np.uint32, np.uint64]
+ALL_INT_DTYPES = INT_DTYPES + UINT_DTYPES
 
 
 def value(p, x):
@@ -519,7 +523,7 @@ def evaluate(ctx, r, out, cqm, ref, st):
         # the same sample as an explicit NumPy row of every integer dtype that holds it (the C++ loops are
         # instantiated per sample dtype; products of two sample values must not be formed in that type)
         if labs and all(float(a).is_integer() for a in row):
-            for dt in INT_DTYPES:
+            for dt in ALL_INT_DTYPES:
                 if not all(np.iinfo(dt).min <= a <= np.iinfo(dt).max for a in row):
                     continue
                 srow = [row[i] for i in spos]
@@ -565,7 +569,7 @@ def evaluate(ctx, r, out, cqm, ref, st):
         dt = float
     else:
         flat = [a for row in rows for a in row]
-        fits = [d for d in INT_DTYPES if all(np.iinfo(d).min <= a <= np.iinfo(d).max for a in flat)]
+        fits = [d for d in ALL_INT_DTYPES if all(np.iinfo(d).min <= a <= np.iinfo(d).max for a in flat)]
         dt = r.choice(fits)   # also the smallest one NumPy / as_samples would pick
         ctx.tick('matrix dtype ' + np.dtype(dt).name)
     arr = np.array(rows, dtype=dt).reshape(nrows, len(labs))
@@ -653,6 +657,178 @@ def evaluate(ctx, r, out, cqm, ref, st):
     return True
 
 
+# ------------------------------------------------------------------------------------------------------------------
+# ExactCQMSolver over domains whose enumeration sits at an integer-dtype boundary
+
+# (lo, hi) of an INTEGER variable: the enumerated values straddle int8 / uint8 / int16 / uint16 limits, are all non-negative
+# (an implementation may pick an unsigned type), all negative, or mixed
+DOMAINS_QUICK = [(0, 127), (0, 128), (0, 129), (0, 200), (0, 255), (0, 256), (0, 300), (100, 200), (128, 255), (120, 136), (250, 260),
+                 (-1, 200), (-128, 127), (-129, 127), (-128, 128), (-200, -100), (-130, -120), (1, 130)]
+DOMAINS_THOROUGH = [(0, 32767), (0, 32768), (0, 40000), (0, 65535), (0, 65536), (32700, 32800), (65500, 65600), (-32769, -32700), (-32768, 32767)]
+SMALL = [(0, 1), (0, 3), (0, 2), (1, 2), (-1, 1), (5, 6)]
+EDGE = {0, 1, -1, 126, 127, 128, 129, 254, 255, 256, 257, -127, -128, -129, -130, 32766, 32767, 32768, 32769, 65534, 65535, 65536, 65537, -32768, -32769}
+
+
+def exact_domains(ctx, r, thorough):
+    """`ExactCQMSolver.sample_cqm` on a CQM whose variables' domains sit at integer-dtype boundaries, every combination of:
+    all-INTEGER non-negative / with a negative bound / next to a BINARY or SPIN variable, with or without a discrete constraint.
+    Every row with a boundary value and a random sample of the others is compared with the definition; the set of rows must be
+    the product of the domains (one-hot assignments for the variables of a discrete constraint).  Returns False to stop."""
+    cqm = CQM(); ref = c05.Ref(); src = []
+    doms = {}
+
+    def addvar(v, vt, lo=None, hi=None):
+        if vt == 'INTEGER':
+            code = f'cqm.add_variable("INTEGER", {v!r}, lower_bound={lo!r}, upper_bound={hi!r})'
+            ref.add_variable(vt, v, lo, hi); doms[v] = list(range(lo, hi + 1))
+        else:
+            code = f'cqm.add_variable({vt!r}, {v!r})'
+            ref.add_variable(vt, v, None, None); doms[v] = [0, 1] if vt == 'BINARY' else [-1, 1]
+        exec(code, dict(cqm=cqm)); src.append(code)
+
+    big = r.choice(DOMAINS_QUICK + (DOMAINS_THOROUGH if thorough and r.random() < .5 else []))
+    shape = r.choice(['one', 'one', 'two', 'two', 'two', 'with-binary', 'with-spin', 'with-negative', 'with-discrete'])
+    order = []
+    if shape in ('with-binary', 'with-spin', 'with-negative', 'with-discrete') and r.random() < .5:
+        order.append('other')
+    order.insert(r.randrange(len(order) + 1), 'big')
+    if shape == 'two':
+        order.insert(r.randrange(len(order) + 1), 'small')
+    elif 'other' not in order and shape != 'one':
+        order.append('other')
+    disc = []
+    for what in order:
+        if what == 'big':
+            addvar('i', 'INTEGER', *big)
+        elif what == 'small':
+            addvar('j', 'INTEGER', *r.choice(SMALL))
+        elif shape == 'with-binary':
+            addvar('x', 'BINARY')
+        elif shape == 'with-spin':
+            addvar('s', 'SPIN')
+        elif shape == 'with-negative':
+            addvar('j', 'INTEGER', -1, r.choice([0, 1]))
+        else:
+            disc = ['x', 'y'] + (['z'] if r.random() < .4 else [])
+            for v in disc:
+                addvar(v, 'BINARY')
+    labs = list(ref.vars)
+    if len(doms['i']) * int(np.prod([len(doms[v]) for v in labs if v != 'i'])) > (300000 if thorough else 2500):
+        return True
+
+    def terms():
+        ts = []
+        for _ in range(r.randint(1, 4)):
+            k = r.choice([0, 1, 1, 1, 2, 2])
+            if k == 0:
+                ts.append((r.randint(-8, 8) / 2,))
+            elif k == 1:
+                ts.append((r.choice(labs), r.randint(-8, 8) / 4))
+            else:
+                ts.append((r.choice(labs), r.choice(labs), r.randint(-8, 8) / 4))
+        if r.random() < .8:
+            ts.append(('i', r.choice([-3, -1, -.5, .25, 1, 2, 2.5])))
+        return ts
+
+    ts = terms()
+    code = f'cqm.set_objective({ts!r})'
+    exec(code, dict(cqm=cqm)); src.append(code); ref.set_objective_terms(ts)
+    mid = (big[0] + big[1]) // 2
+    for n in range(r.choice([1, 2, 2, 3])):
+        ts = terms()
+        sense = r.choice(c05.SENSES)
+        # a right-hand side in the range the left-hand side takes, so that satisfaction is mixed over the rows
+        x0 = {v: F(mid if v == 'i' else doms[v][0]) for v in labs}
+        p0, _ = ref.poly_of_terms(ts)
+        rhs = float(value(p0, x0)) + r.randint(-4, 4) / 2
+        weight = r.choice([.5, 2.0, 1.25]) if r.random() < .4 else None
+        kw = f'label="c{n}"' + (f', weight={weight!r}, penalty="linear"' if weight is not None else '')
+        code = f'cqm.add_constraint({ts!r}, {sense!r}, {rhs!r}, {kw})'
+        exec(code, dict(cqm=cqm)); src.append(code)
+        ref.add_constraint_terms(ts, sense, rhs, f'c{n}', weight, 'linear')
+    if disc:
+        code = f'cqm.add_discrete({disc!r}, label="d")'
+        exec(code, dict(cqm=cqm)); src.append(code)
+        ref.add_discrete_vars(disc, 'd', True)
+    clabels = list(ref.cons)
+    atol, rtol = F(r.choice(TOLS)), F(r.choice(TOLS))
+    tol = dict(rtol=float(rtol), atol=float(atol))
+    tolkw = f', rtol={float(rtol)!r}, atol={float(atol)!r}'
+    pre = c05.PRELUDE + 'from dimod import SampleSet, ExactCQMSolver\n' + '\n'.join(src) + '\n'
+    unsigned_only = all(ref.vars[v][0] == 'INTEGER' and ref.vars[v][1] >= 0 for v in labs)
+    icls = (f'domain [{big[0]}, {big[1]}]' + (', every variable a non-negative INTEGER' if unsigned_only else '') + (', discrete constraint' if disc else ''))
+    ctx.tick(f'exact solver domains: {shape}' + (' (all non-negative INTEGER)' if unsigned_only else ''))
+    ctx.tick('exact solver big domain ' + ('>= 0' if big[0] >= 0 else '< 0 only' if big[1] < 0 else 'mixed sign')
+             + (' reaching 128..255' if big[1] >= 128 and big[1] <= 255 else ' reaching >= 256' if big[1] >= 256 else ''))
+
+    def fail(what, check, icls_=None):
+        ctx.fail('property', 'ExactCQMSolver.sample_cqm', icls_ or icls, what, repro=pre + check, detail=dict(build=src, atol=str(atol), rtol=str(rtol)))
+
+    try:
+        es = dimod.ExactCQMSolver().sample_cqm(cqm, **tol)
+    except Exception as e:  # noqa
+        fail(f'{type(e).__name__}: {e}', f'ExactCQMSolver().sample_cqm(cqm{tolkw})\n', 'raises')
+        return False
+    esv = list(es.variables)
+    col = [esv.index(v) for v in labs]
+    smp = es.record.sample
+    nrows = len(es.record)
+    want_n = len(doms['i'])
+    for v in labs:
+        if v != 'i' and v not in disc:
+            want_n *= len(doms[v])
+    want_n *= len(disc) or 1
+    # the set of rows: exactly the product of the domains (one-hot over the discrete variables)
+    got_rows = set(map(tuple, np.asarray(smp, dtype=object)[:, col].tolist())) if nrows <= 3000 else None
+    okrows = nrows == want_n and es.info.get('constraint_labels') == clabels
+    if okrows and got_rows is not None:
+        free = [v for v in labs if v not in disc]
+        want_rows = set()
+        for combo in itertools.product(*[doms[v] for v in free]):
+            base = dict(zip(free, combo))
+            for hot in (disc or [None]):
+                row = dict(base)
+                for v in disc:
+                    row[v] = 1 if v == hot else 0
+                want_rows.add(tuple(row[v] for v in labs))
+        okrows = {tuple(int(a) for a in t) for t in got_rows} == want_rows and all(float(a).is_integer() for t in got_rows for a in t)
+    if not okrows:
+        fail(f'{nrows} rows / labels {es.info.get("constraint_labels")!r}: not exactly the {want_n} assignments of the domains',
+             f'es = ExactCQMSolver().sample_cqm(cqm)\nassert len(es) == {want_n}, len(es)\n', 'enumeration')
+        return False
+    # rows to compare: every row holding a boundary value, and a random sample of the rest
+    icol = col[labs.index('i')]
+    ivals = np.asarray(smp[:, icol], dtype=np.int64)
+    edge = np.isin(ivals, sorted(EDGE | {big[0], big[1], mid}))
+    idx = set(np.nonzero(edge)[0].tolist()[:400]) | set(r.sample(range(nrows), min(nrows, 120)))
+    # the upper half of every unsigned width that could hold the domain
+    for lo_, hi_ in ((128, 255), (32768, 65535)):
+        up = np.nonzero((ivals >= lo_) & (ivals <= hi_))[0].tolist()
+        idx |= set(r.sample(up, min(len(up), 60)))
+    nontrivial = False
+    for i in sorted(idx):
+        x = {v: F(float(smp[i][c])) for v, c in zip(labs, col)}
+        per, feas, en = definition(ref, x, atol, rtol)
+        gsat = [bool(b) for b in es.record.is_satisfied[i]]
+        wsat = [per[l][3] for l in clabels]
+        nontrivial = nontrivial or not all(wsat)
+        if gsat != wsat or bool(es.record.is_feasible[i]) != feas or F(float(es.record.energy[i])) != en:
+            sample = {v: int(x[v]) for v in labs}
+            # do the other report paths agree with the definition on this very sample?  (then it is the solver's hand-over)
+            try:
+                direct = bool(cqm.check_feasible(sample, **tol)) == feas
+            except Exception:  # noqa
+                direct = False
+            fail(f'row {sample}: energy {float(es.record.energy[i])}, feasible {bool(es.record.is_feasible[i])}, satisfied {gsat}; definition {float(en)}, {feas}, {wsat}'
+                 + (' (check_feasible on the same sample given as a dict agrees with the definition)' if direct else ''),
+                 f'es = ExactCQMSolver().sample_cqm(cqm{tolkw})\n'
+                 f'd = [d for d in es.data(["sample", "energy", "is_satisfied", "is_feasible"]) if dict(d.sample) == {sample!r}][0]\nprint(d)\n'
+                 f'assert d.energy == {float(en)!r} and list(map(bool, d.is_satisfied)) == {wsat!r} and bool(d.is_feasible) == {feas}, d\n')
+            return False
+    ctx.case(('exact-domains', tuple(src), atol, rtol), nontrivial=nontrivial, sample=dict(build=src, atol=str(atol), rtol=str(rtol)))
+    return True
+
+
 def run(ctx):
     r = ctx.rng
     n = ctx.scale(1400, 30000)
@@ -665,6 +841,10 @@ def run(ctx):
     for _ in range(n):
         check_one(ctx, r, out)
         if len([f for f in ctx.failures if f['kind'] == 'property']) >= 10:
+            break
+    thorough = ctx.scale(0, 1) == 1
+    for _ in range(ctx.scale(60, 1500)):
+        if not exact_domains(ctx, r, thorough):
             break
     lines = [ln for o in out for ln in o['lines']]
     got = run_driver('cqmdriver', lines)
